@@ -506,6 +506,21 @@ def normalise_items(paths: list) -> list:
     from .setalg import accum_as_comp
 
     def dict_loops(s_: Term):
+        # `for x in S: if c: d[k1] = v1 else: d[k2] = v2` is summarised as two passes with complementary filters: one pass with a conditional key
+        if s_[0] == "accum" and len(s_) >= 6 and s_[1] == "effect" and s_[3][0] == "setitem" and len(s_[3]) == 3 and len(s_[4]) == 1 and s_[5] == ("const", False):
+            in_ = s_[2]
+            if is_term(in_) and in_[0] == "comp" and in_[1] == "dict" and is_term(in_[2]) and in_[2][0] == "kv" and len(in_[3]) == 1:
+                # (the inner pass has already been read as a comprehension)
+                in_ = ("accum", "effect", ("dictlit", ()), ("setitem", in_[2][1], in_[2][2]), in_[3], ("const", False))
+            if is_term(in_) and in_[0] == "accum" and len(in_) >= 6 and in_[1] == "effect" and in_[3][0] == "setitem" and len(in_[3]) == 3 and len(in_[4]) == 1 \
+                    and in_[5] == ("const", False):
+                (p1, src1, c1), (p2, src2, c2) = in_[4][0], s_[4][0]
+                if p1 == p2 and src1 == src2 and c1 and c2 and tuple(c1[:-1]) == tuple(c2[:-1]) and (c2[-1] == ("not", c1[-1]) or c1[-1] == ("not", c2[-1])):
+                    c = c1[-1]
+                    key = ("ite", c, in_[3][1], s_[3][1])
+                    val = in_[3][2] if in_[3][2] == s_[3][2] else ("ite", c, in_[3][2], s_[3][2])
+                    merged = ("accum", "effect", in_[2], ("setitem", key, val), ((p1, src1, tuple(c1[:-1])),), ("const", False))
+                    return dict_loops(merged) or merged
         # `d = {}; for x in S: d[k(x)] = v(x)` is the dict comprehension with the same generators (same overwriting of equal keys)
         if s_[0] == "accum" and len(s_) >= 6 and s_[1] == "effect" and s_[2] == ("dictlit", ()) and s_[3][0] == "setitem":
             return accum_as_comp(s_)
